@@ -1,16 +1,158 @@
 /-
-  spmodel — extension slot B of the line protocol (ops of one model extension;
-  chained from Driver/Ext.lean).
+  spmodel — extension slot B of the line protocol: the SENDER streams call by
+  call over a faulting writer (Model/SenderStream.lean).
+
+    st.sender enc <ma> <sender> <recips> <eph> <src> <sink> <ops>
+    st.sender sig <ma> <signer> <src> <sink> <ops>
+    st.sender sc  <sender> <boxes> <syms> <eph> <src> <sink> <ops>
+    st.sender det <ma> <signer> <src> <sink> <ops>
+    st.sender <kind>.a … <brand> <sink> <ops>       the armored composition
+
+  <sink>  `-` or a string of 0/1: which underlying Write calls fail (1 = fails)
+  <ops>   comma separated: `w:<hex>` Write of these bytes, `g:<off>:<len>` Write
+          of position-dependent bytes, `c` Close
+  answer  `ok init=<class> calls=<n:class,…> lens=<bytes at the writer after the
+          constructor and after every call> tried=<sizes of all attempted
+          underlying writes> out=<what reached the writer>`
 -/
 import Driver.Util
+import Saltpack.Model.SenderStream
 
 open Saltpack
 
 namespace DriverExtB
-open Driver
+open Driver Saltpack.Sender
+
+inductive Op where
+  | w (p : Bytes)
+  | c
+
+def genBytes (off len : Nat) : Bytes :=
+  (List.range len).map (fun j => let i := off + j; UInt8.ofNat (i ^^^ (i >>> 8) ^^^ ((i >>> 16) * 7)))
+
+def parseOp (s : String) : Option Op :=
+  match s.splitOn ":" with
+  | ["c"] => some .c
+  | ["w", h] => (ofHex h).map .w
+  | ["g", o, l] => match o.toNat?, l.toNat? with
+    | some o, some l => some (.w (genBytes o l))
+    | _, _ => none
+  | _ => none
+
+def parseOps (s : String) : Option (List Op) := (splitList s).mapM parseOp
+
+def parseSink (s : String) : Stream.Sink := (if s = "-" then [] else s.toList).map (· == '1')
+
+def cls : Option Err → String
+  | none => "ok"
+  | some (.panic _) => "panic"
+  | some e => showErr e
+
+def showOut (b : Bytes) : String :=
+  if b.length ≤ 2048 then toHex b else s!"#{b.length}:{toHex (RealPrims.hash b)}"
+
+def dots (l : List Nat) : String := if l.isEmpty then "-" else ".".intercalate (l.map toString)
+
+/-- run the calls on a machine given as its two transitions -/
+def runOps {σ : Type} (write : σ → Bytes → Nat × Option Err × σ) (close : σ → Option Err × σ)
+    (lenOf : σ → Nat) (ops : List Op) (s0 : σ) : σ × List String × List Nat :=
+  ops.foldl (fun (acc : σ × List String × List Nat) op =>
+    let (s, tr, ls) := acc
+    match op with
+    | .w p => let (n, e, s') := write s p; (s', tr ++ [s!"{n}:{cls e}"], ls ++ [lenOf s'])
+    | .c => let (e, s') := close s; (s', tr ++ [s!"c:{cls e}"], ls ++ [lenOf s'])) (s0, [], [lenOf s0])
+
+def answer (initOk : Bool) (tr : List String) (ls : List Nat) (w : Wr) : String :=
+  s!"ok init={if initOk then "ok" else "io-error"} calls={if tr.isEmpty then "-" else ",".intercalate tr} lens={dots ls} tried={dots w.tried} out={showOut w.bytes}"
+
+/-- a packet stream over the scripted writer -/
+def runPacket (setup : Except Err (Bytes × Cfg)) (sink : Stream.Sink) (ops : List Op) : String :=
+  match setup with
+  | .error e => s!"err {showErr e}"
+  | .ok (hb, cfg) =>
+    let (ok, st0) := PSt.init Wr.write cfg.pieces ({ sink := sink } : Wr) hb
+    if !ok then answer false [] [st0.codec.w.bytes.length] st0.codec.w
+    else
+      let (st, tr, ls) := runOps (PSt.write Wr.write cfg) (PSt.close Wr.write cfg) (fun s => s.codec.w.bytes.length) ops st0
+      answer true tr ls st.codec.w
+
+def runDetached (setup : Except Err (Bytes × (Bytes → Bytes))) (sink : Stream.Sink) (ops : List Op) : String :=
+  match setup with
+  | .error e => s!"err {showErr e}"
+  | .ok (hb, sigPkt) =>
+    let (ok, st0) := DSt.init Wr.write codecPieces ({ sink := sink } : Wr) hb
+    if !ok then answer false [] [st0.codec.w.bytes.length] st0.codec.w
+    else
+      let (st, tr, ls) := runOps DSt.write (DSt.close Wr.write codecPieces sigPkt) (fun s => s.codec.w.bytes.length) ops st0
+      answer true tr ls st.codec.w
+
+/-- the armored composition: armor header first (`NewArmor62EncoderStream`), then the packet stream's constructor -/
+def runPacketA (typ : Int) (brand : Bytes) (setup : Except Err (Bytes × Cfg)) (sink : Stream.Sink) (ops : List Op) : String :=
+  let (aok, a0) := FArm.init62 typ brand ({ sink := sink } : Wr)
+  if !aok then answer false [] [a0.w.bytes.length] a0.w
+  else match setup with
+  | .error e => s!"ok init={showErr e} calls=- lens={a0.w.bytes.length} tried={dots a0.w.tried} out={showOut a0.w.bytes}"
+  | .ok (hb, cfg) =>
+    let (ok, st0) := PSt.init FArm.write cfg.pieces a0 hb
+    if !ok then answer false [] [st0.codec.w.w.bytes.length] st0.codec.w.w
+    else
+      let (st, tr, ls) := runOps (PSt.write FArm.write cfg) (armoredClose cfg) (fun s => s.codec.w.w.bytes.length) ops st0
+      answer true tr ls st.codec.w.w
+
+def runDetachedA (typ : Int) (brand : Bytes) (setup : Except Err (Bytes × (Bytes → Bytes))) (sink : Stream.Sink) (ops : List Op) : String :=
+  let (aok, a0) := FArm.init62 typ brand ({ sink := sink } : Wr)
+  if !aok then answer false [] [a0.w.bytes.length] a0.w
+  else match setup with
+  | .error e => s!"ok init={showErr e} calls=- lens={a0.w.bytes.length} tried={dots a0.w.tried} out={showOut a0.w.bytes}"
+  | .ok (hb, sigPkt) =>
+    let (ok, st0) := DSt.init FArm.write codecPieces a0 hb
+    if !ok then answer false [] [st0.codec.w.w.bytes.length] st0.codec.w.w
+    else
+      let (st, tr, ls) := runOps DSt.write (armoredCloseD codecPieces sigPkt) (fun s => s.codec.w.w.bytes.length) ops st0
+      answer true tr ls st.codec.w.w
 
 def handle (toks : List String) : Option String :=
   match toks with
+  | ["st.sender", "enc.a", ma, sender, recips, eph, src, brand, sink, ops] =>
+    match ma.toInt?, mkSender sender, mkRecips recips, mkEph eph, mkSource src, ofHex brand, parseOps ops with
+    | some ma, some sender, some rs, some eph, some src, some brand, some ops =>
+      some (runPacketA mtEncryption brand (encryptSetupRand RealPrims blockSize codecPieces ⟨ma, 0⟩ sender rs eph src) (parseSink sink) ops)
+    | _, _, _, _, _, _, _ => some bad
+  | ["st.sender", "sig.a", ma, signer, src, brand, sink, ops] =>
+    match ma.toInt?, ofHex signer, mkSource src, ofHex brand, parseOps ops with
+    | some ma, some signer, some src, some brand, some ops =>
+      some (runPacketA mtAttached brand (signSetupRand RealPrims sigBlockSize codecPieces ⟨ma, 0⟩ signer src) (parseSink sink) ops)
+    | _, _, _, _, _ => some bad
+  | ["st.sender", "sc.a", sender, boxes, syms, eph, src, brand, sink, ops] =>
+    match mkSender sender, mkSRecips boxes, mkSRecips syms, mkEph eph, mkSource src, ofHex brand, parseOps ops with
+    | some sender, some boxes, some syms, some eph, some src, some brand, some ops =>
+      some (runPacketA mtEncryption brand (signcryptSetupRand RealPrims blockSize codecPieces sender boxes syms eph src) (parseSink sink) ops)
+    | _, _, _, _, _, _, _ => some bad
+  | ["st.sender", "det.a", ma, signer, src, brand, sink, ops] =>
+    match ma.toInt?, ofHex signer, mkSource src, ofHex brand, parseOps ops with
+    | some ma, some signer, some src, some brand, some ops =>
+      some (runDetachedA mtDetached brand (detachedSetupRand RealPrims ⟨ma, 0⟩ signer src) (parseSink sink) ops)
+    | _, _, _, _, _ => some bad
+  | ["st.sender", "enc", ma, sender, recips, eph, src, sink, ops] =>
+    match ma.toInt?, mkSender sender, mkRecips recips, mkEph eph, mkSource src, parseOps ops with
+    | some ma, some sender, some rs, some eph, some src, some ops =>
+      some (runPacket (encryptSetupRand RealPrims blockSize codecPieces ⟨ma, 0⟩ sender rs eph src) (parseSink sink) ops)
+    | _, _, _, _, _, _ => some bad
+  | ["st.sender", "sig", ma, signer, src, sink, ops] =>
+    match ma.toInt?, ofHex signer, mkSource src, parseOps ops with
+    | some ma, some signer, some src, some ops =>
+      some (runPacket (signSetupRand RealPrims sigBlockSize codecPieces ⟨ma, 0⟩ signer src) (parseSink sink) ops)
+    | _, _, _, _ => some bad
+  | ["st.sender", "sc", sender, boxes, syms, eph, src, sink, ops] =>
+    match mkSender sender, mkSRecips boxes, mkSRecips syms, mkEph eph, mkSource src, parseOps ops with
+    | some sender, some boxes, some syms, some eph, some src, some ops =>
+      some (runPacket (signcryptSetupRand RealPrims blockSize codecPieces sender boxes syms eph src) (parseSink sink) ops)
+    | _, _, _, _, _, _ => some bad
+  | ["st.sender", "det", ma, signer, src, sink, ops] =>
+    match ma.toInt?, ofHex signer, mkSource src, parseOps ops with
+    | some ma, some signer, some src, some ops =>
+      some (runDetached (detachedSetupRand RealPrims ⟨ma, 0⟩ signer src) (parseSink sink) ops)
+    | _, _, _, _ => some bad
   | _ => none
 
 end DriverExtB
